@@ -1,2 +1,18 @@
 import Lmd.Props.C04
 #print axioms Lmd.C01.matchF_eq_sem
+#print axioms Lmd.C04.peers_eq_filter
+#print axioms Lmd.C04.selected_exact
+#print axioms Lmd.C04.peers_sublist
+#print axioms Lmd.C04.peers_nodup
+#print axioms Lmd.C04.peer_ids_nodup
+#print axioms Lmd.C04.dup_header
+#print axioms Lmd.C04.dup_header_cons
+#print axioms Lmd.C04.failed_exact
+#print axioms Lmd.C04.failed_down_exact
+#print axioms Lmd.C04.mem_failed_iff
+#print axioms Lmd.C04.hit_source
+#print axioms Lmd.C04.rows_partition
+#print axioms Lmd.C04.rows_partition_filter
+#print axioms Lmd.C04.hit_from_selected
+#print axioms Lmd.C04.others_unaffected
+#print axioms Lmd.C04.others_changed_unaffected
